@@ -75,6 +75,44 @@ Lemma hide_table h a og eg :
   effective_hide h a og eg = (stdout_hidden (to_req h) a og, stderr_hidden (to_req h) a eg).
 Proof. destruct h, a, og, eg; reflexivity. Qed.
 
+(** * Mirror streams: what a stream holds depends on the concatenation of the writes only *)
+
+Lemma render_app m a b : render m (a ++ b) = render m a ++ render m b.
+Proof. unfold render. apply flat_map_app. Qed.
+
+Lemma render_concat m ws : List.concat (map (render m) ws) = render m (List.concat ws).
+Proof.
+  induction ws as [|w r IH]; [reflexivity|].
+  cbn [map List.concat]. rewrite render_app, IH. reflexivity.
+Qed.
+
+(** a stream fed piece by piece holds what an identical stream holds after one write of the whole text *)
+Lemma stream_content_one_write m ws : stream_content m ws = stream_content m [List.concat ws].
+Proof.
+  unfold stream_content. destruct (m_wrap m); cbn [map List.concat]; rewrite ?app_nil_r.
+  - apply render_concat.
+  - reflexivity.
+Qed.
+
+Lemma stream_content_nil m : stream_content m [] = [].
+Proof. unfold stream_content. destruct (m_wrap m); reflexivity. Qed.
+
+Lemma stream_content_nil1 m : stream_content m [[]] = [].
+Proof. unfold stream_content. destruct (m_wrap m); reflexivity. Qed.
+
+Lemma write_our_output_id m ws : map (write_our_output m) ws = ws.
+Proof. unfold write_our_output. apply map_id. Qed.
+
+Lemma mirrored_nil m : mirrored m [] = [].
+Proof. unfold mirrored. cbn [map]. apply stream_content_nil. Qed.
+
+Lemma mirrored_concat m ws : mirrored m ws = stream_content m [List.concat ws].
+Proof. unfold mirrored. rewrite write_our_output_id. apply stream_content_one_write. Qed.
+
+(** a recording stream holds the text it was handed, whatever encoding it advertises *)
+Lemma mirrored_recording e ws : mirrored (mkMirror e false) ws = List.concat ws.
+Proof. unfold mirrored. rewrite write_our_output_id. reflexivity. Qed.
+
 (** * The run model against [spec_ok] *)
 
 Definition chunk_guard (i : run_in) : bool :=
@@ -97,10 +135,12 @@ Proof.
   rewrite !handle_output_shape. cbn zeta. cbn [ro_stdout ro_stderr ro_out_stream ro_err_stream lo_buf lo_writes app].
   destruct (ri_pty i) eqn:P.
   - cbn [lo_buf lo_writes List.concat].
-    destruct (stdout_hidden _ _ _), (stderr_hidden _ _ _); cbn [List.concat];
+    destruct (stdout_hidden _ _ _), (stderr_hidden _ _ _);
+      rewrite ?mirrored_nil, ?mirrored_concat, ?stream_content_nil, ?stream_content_nil1; cbn [List.concat];
       rewrite ?(concat_pieces_ok _ _ Go), ?text_eqb_refl; reflexivity.
   - cbn [orb] in Ge. cbn [lo_buf lo_writes app].
-    destruct (stdout_hidden _ _ _), (stderr_hidden _ _ _); cbn [List.concat];
+    destruct (stdout_hidden _ _ _), (stderr_hidden _ _ _);
+      rewrite ?mirrored_nil, ?mirrored_concat, ?stream_content_nil; cbn [List.concat];
       rewrite ?(concat_pieces_ok _ _ Go), ?(concat_pieces_ok _ _ Ge), ?text_eqb_refl; reflexivity.
 Qed.
 
@@ -111,7 +151,8 @@ Proof.
 Qed.
 
 Definition witness_in : run_in :=
-  mkIn Utf8 [RChunk [195]; RExit; RChunk [169]] [] HNone false false false false.
+  mkIn Utf8 [RChunk [195]; RExit; RChunk [169]] [] HNone false false false false
+       (mkMirror MNone false) (mkMirror MNone false).
 
 Lemma run_meets_spec_refuted : exists i, spec_in i (run_model i) = false.
 Proof. exists witness_in. vm_compute. reflexivity. Qed.
@@ -193,9 +234,14 @@ Proof.
     - transitivity (List.concat (lo_buf (handle_output_inc (ri_enc i) false DInit s []))).
       + exact (inc_writes_shown (ri_enc i) s DInit []).
       + rewrite inc_capture. reflexivity. }
+  assert (M : forall m h s, mirrored m (lo_writes (handle_output_inc (ri_enc i) h DInit s [])) =
+                            stream_content m (if h then [] else [dfin (ri_enc i) DInit (stream_bytes s)])).
+  { intros m h s. rewrite mirrored_concat, W. destruct h; [|reflexivity].
+    rewrite stream_content_nil1, stream_content_nil. reflexivity. }
   destruct (ri_pty i); cbn [lo_buf lo_writes List.concat];
+    rewrite ?M, ?inc_capture, ?mirrored_nil; cbn [List.concat app];
     destruct (stdout_hidden _ _ _), (stderr_hidden _ _ _);
-    rewrite ?W, ?inc_capture; cbn [List.concat app]; rewrite ?text_eqb_refl; reflexivity.
+    rewrite ?stream_content_nil, ?stream_content_nil1, ?text_eqb_refl; reflexivity.
 Qed.
 
 (** * Shape of the repaired loop: pieces, mirror, submissions *)
@@ -265,3 +311,43 @@ Proof. destruct (handle_output_inc_shape e hide script DInit []) as [ps ->]. ref
 (** old per-read loop, kept for the historical record *)
 Lemma legacy_run_refuted : exists i, spec_in i (run_model i) = false.
 Proof. exact run_meets_spec_refuted. Qed.
+
+(** * The forwarded text does not depend on the mirror stream's encoding attribute *)
+
+Lemma writes_independent_of_mirror i mo me mo' me' :
+  run_writes_inc (with_mirrors i mo me) = run_writes_inc (with_mirrors i mo' me').
+Proof.
+  unfold run_writes_inc, with_mirrors.
+  cbn [ri_enc ri_out ri_err ri_hide ri_out_given ri_err_given ri_pty ri_async ri_out_mirror ri_err_mirror].
+  rewrite !write_our_output_id. reflexivity.
+Qed.
+
+Lemma run_independent_of_mirror_encoding i eo ee eo' ee' :
+  run_model_inc (with_mirrors i (mkMirror eo false) (mkMirror ee false)) =
+  run_model_inc (with_mirrors i (mkMirror eo' false) (mkMirror ee' false)).
+Proof.
+  unfold run_model_inc, with_mirrors.
+  cbn [ri_enc ri_out ri_err ri_hide ri_out_given ri_err_given ri_pty ri_async ri_out_mirror ri_err_mirror].
+  rewrite !mirrored_recording. reflexivity.
+Qed.
+
+(** ... and is the captured text (unless hidden): a recording mirror holds exactly [Result.stdout] *)
+Lemma recording_mirror_is_capture i eo :
+  ri_out_mirror i = mkMirror eo false ->
+  fst (effective_hide (ri_hide i) (ri_async i) (ri_out_given i) (ri_err_given i)) = false ->
+  ro_out_stream (run_model_inc i) = ro_stdout (run_model_inc i).
+Proof.
+  intros Hm Hh. unfold run_model_inc. cbn zeta. cbn [ro_out_stream ro_stdout]. rewrite Hm, Hh, mirrored_recording.
+  exact (inc_writes_shown (ri_enc i) (ri_out i) DInit []).
+Qed.
+
+(** a wrapper written to piece by piece = an identical wrapper given the captured text at once *)
+Lemma wrapper_mirror_is_rendered_capture i eo :
+  ri_out_mirror i = mkMirror eo true ->
+  fst (effective_hide (ri_hide i) (ri_async i) (ri_out_given i) (ri_err_given i)) = false ->
+  ro_out_stream (run_model_inc i) = render eo (ro_stdout (run_model_inc i)).
+Proof.
+  intros Hm Hh. unfold run_model_inc. cbn zeta. cbn [ro_out_stream ro_stdout]. rewrite Hm, Hh, mirrored_concat.
+  unfold stream_content. cbn [m_wrap m_enc map List.concat]. rewrite app_nil_r.
+  f_equal. exact (inc_writes_shown (ri_enc i) (ri_out i) DInit []).
+Qed.
